@@ -201,6 +201,8 @@ struct Exec
 			auto net = ww.queue(0, ms(10), 0);
 			ww.chan = [net](ip::address, ip::address) { return World::hops_t{ net }; };
 			ww.out[addr("10.0.0.2")] = World::hops_t{ std::make_shared<sim::nat>(addr("99.0.0.1")) };
+			// in the pre-listening start state the acceptors' node sits behind a NAT of its own (it must not change anything the connectors see)
+			if (prelisten) ww.out[addr("10.0.1.1")] = World::hops_t{ std::make_shared<sim::nat>(addr("88.0.0.1")) };
 			// SYN arrival order is read here: the last configured hop in front of the server's sockets
 			for (const char* a : { "10.0.1.1", "fe80::1" }) {
 				auto p = ww.probe(a[0] == '1' ? 0 : 1);
